@@ -233,13 +233,17 @@ def replay_fold(cfg):
 
 
 # ---- caller's arrays stay valid: donation dataflow + concrete confirmation --------------------------------
-def forwarding_program():
-  """A client program whose init forwards its inputs into the state (like the algorithms do with rng / client state)."""
+def forwarding_program(with_result=False):
+  """A client program whose init forwards its inputs into the state (like the algorithms do with rng / client state).
+  with_result: every step also returns a per-step result of the same shape/dtype as a batch leaf (a buffer XLA could reuse)."""
   def client_init(shared, cin):
     return {'p': shared['w'], 'k': cin['k'], 'acc': cin['start']}
 
   def client_step(state, batch):
-    return {'p': state['p'], 'k': state['k'] + 1.0, 'acc': state['acc'] + jnp.sum(batch['x'] * state['p'])}
+    new = {'p': state['p'], 'k': state['k'] + 1.0, 'acc': state['acc'] + jnp.sum(batch['x'] * state['p'])}
+    if with_result:
+      return new, {'scaled': batch['x'] * state['k'], 'row': batch['r'] + 1}
+    return new
 
   def client_final(shared, state):
     return {'acc': state['acc'], 'k': state['k']}
@@ -247,17 +251,25 @@ def forwarding_program():
 
 
 def donation_check(backend):
+  p1, c1 = _donation_check(backend, False)
+  p2, c2 = _donation_check(backend, True)
+  return p1 + p2, c1 + c2
+
+
+def _donation_check(backend, with_result):
   fec = FEC()
-  ci, cs, cf = forwarding_program()
+  ci, cs, cf = forwarding_program(with_result)
+  bt = lambda *v: {'x': jnp.asarray(list(v)), 'r': jnp.asarray([7, 8, 9], jnp.int32)}
   mk = lambda: ({'w': jnp.asarray([1.0, 2.0])},
                 [{'k': jnp.asarray(3.0), 'start': jnp.asarray(0.5)}, {'k': jnp.asarray(4.0), 'start': jnp.asarray(1.5)}],
-                [[{'x': jnp.asarray([1.0, 1.0])}, {'x': jnp.asarray([2.0, 0.0])}], [{'x': jnp.asarray([0.0, 3.0])}]])
+                [[bt(1.0, 1.0), bt(2.0, 0.0)], [bt(0.0, 3.0)]])
   shared, cins, batches = mk()
   with fec.for_each_client_backend(backend):
-    f = fec.for_each_client(ci, cs, cf)
+    f = fec.for_each_client(ci, cs, cf, with_step_result=with_result)
+  outs = (lambda r: r[1:]) if with_result else (lambda r: r[1:])
 
   def traced(sh, cn, bt):
-    return [o for _, o in f(sh, [(b'a', bt[0], cn[0]), (b'b', bt[1], cn[1])])]
+    return [outs(r) for r in f(sh, [(b'a', bt[0], cn[0]), (b'b', bt[1], cn[1])])]
   problems = []
   if backend == 'jit':
     closed = jax.make_jaxpr(traced)(shared, cins, batches)
